@@ -35,15 +35,15 @@ class SelectTableLineage:
         self._column_name_to_standard_column_hash = {}  # 字段名到标准字段对象的哈希映射
         self._column_name_to_source_column_list_hash = {}  # 字段名到源字段对象列表的哈希映射
         self._column_idx_to_source_column_list_hash = {}  # 字段序号到源字段对象列表的哈希映射
-        self._standard_table_set = set()  # 使用的上游表列表
+        self._standard_table_set = {}  # 使用的上游表列表（使用字典保证顺序不依赖哈希种子）
         for standard_column, source_column_list in data_lineage:
             self._column_name_list.append(standard_column.column_name)
             self._column_name_to_standard_column_hash[standard_column.column_name] = standard_column
             self._column_name_to_source_column_list_hash[standard_column.column_name] = source_column_list
             self._column_idx_to_source_column_list_hash[standard_column.column_idx] = source_column_list
             for source_column in source_column_list:
-                self._standard_table_set.add(node.StandardTable(schema_name=source_column.schema_name,
-                                                                table_name=source_column.table_name))
+                self._standard_table_set[node.StandardTable(schema_name=source_column.schema_name,
+                                                            table_name=source_column.table_name)] = None
 
     @staticmethod
     def by_create_table_statement(ast: ASTCreateTableStatement):
